@@ -241,6 +241,9 @@ def classify_failure(rc, err):
         v = classify_valgrind(err)
         if v:
             return v
+    ws = re.findall(r'WRITABLE-SYMBOL-CHANGED (\S+)', err)
+    if ws:
+        return 'mutable-state:' + '+'.join(sorted(set(ws)))[:160]
     m = re.search(r'runtime error: ([^\n]*)', err)
     if m:
         msg = m.group(1)
